@@ -305,6 +305,7 @@ func (e *Eval) applyContract(fr *Frame, k *Contract, pkg *ssa.Package, pnames []
 	for i, n := range pnames {
 		if i < len(args) && i < len(ptypes) {
 			env.bind(n, args[i], ptypes[i])
+			env.bindIfAbsent(n+"0", args[i], ptypes[i]) // entry value (as in the callee's own verification)
 			env.bind(fmt.Sprintf("arg%d", i), args[i], ptypes[i])
 		}
 	}
@@ -395,8 +396,8 @@ func (e *Eval) applyContract(fr *Frame, k *Contract, pkg *ssa.Package, pnames []
 			c.Unsupported("%v", err)
 			continue
 		}
-		if mentionsLogical(k, cl.Text) || mentionsLocalCounters(cl.Text) {
-			continue // clauses over the callee's logical variables / own call counters are not used by callers
+		if cl.Local || mentionsLogical(k, cl.Text) || mentionsLocalCounters(cl.Text) {
+			continue // clauses over the callee's local / logical variables / own call counters are not used by callers
 		}
 		c.Assert(implies(normalCond, env2.evalBool(ex)))
 	}
